@@ -34,7 +34,16 @@ func init() {
 
 type c19key int
 
+// who returns the user and database the connection has announced (default: lifecycle / db).
+func (s *c19conn) who() (string, string) {
+	if s.user == "" {
+		return "lifecycle", "db"
+	}
+	return s.user, s.db
+}
+
 type c19conn struct {
+	user, db  string
 	mwOrder   []int
 	mwOffsets []int
 	problems  []string
@@ -137,13 +146,14 @@ func (ch c19) server(cfg c19cfg) *hs.Env {
 				st.problems = append(st.problems, fmt.Sprintf("%s: value of middleware %d missing from the command context", where, j))
 			}
 		}
-		if cp := wire.ClientParameters(ctx); cp["user"] != "lifecycle" || cp["database"] != "db" || cp["options"] != "" || cp["application_name"] != "" || len(cp) != 4 {
-			st.problems = append(st.problems, fmt.Sprintf("%s: client parameters in the command context are %v, sent: options=\"\" user=lifecycle application_name=\"\" database=db", where, cp))
+		user, db := st.who()
+		if cp := wire.ClientParameters(ctx); cp["user"] != user || cp["database"] != db || cp["options"] != "" || cp["application_name"] != "" || len(cp) != 4 {
+			st.problems = append(st.problems, fmt.Sprintf("%s: client parameters in the command context are %v, sent: options=\"\" user=%s application_name=\"\" database=%s", where, cp, user, db))
 		}
 		if sp := wire.ServerParameters(ctx); sp["application_name"] != "verif" || sp["server_encoding"] != "UTF8" {
 			st.problems = append(st.problems, where+": server parameters missing from the command context")
-		} else if sa := sp["session_authorization"]; sa != "lifecycle" {
-			st.problems = append(st.problems, fmt.Sprintf("%s: session_authorization in this connection's context is %q, the connection belongs to \"lifecycle\"", where, sa))
+		} else if sa := sp["session_authorization"]; sa != user {
+			st.problems = append(st.problems, fmt.Sprintf("%s: session_authorization in this connection's context is %q, the connection belongs to %q", where, sa, user))
 		}
 		if wire.RemoteAddress(ctx) == nil {
 			st.problems = append(st.problems, where+": remote address missing from the command context")
@@ -235,7 +245,15 @@ func (ch c19) runConn(c *core.Ctx, env *hs.Env, cfg c19cfg, ending string, rng *
 	}
 	env.L.DialConn(conn)
 	cl := hs.NewClient(conn)
-	cl.C.Send(pg.Startup([][2]string{{"options", ""}, {"user", "lifecycle"}, {"application_name", ""}, {"database", "db"}}))
+	if rng.Intn(5) == 0 {
+		// names longer than an identifier of the database would be (64-120 bytes, a multi-byte character
+		// across byte 63): a start-up parameter value is a string, the context carries the string sent
+		st.user = strings.Repeat("u", 60+rng.Intn(4)) + "é" + strings.Repeat("r", rng.Intn(50))
+		st.db = core.Pick(rng, []string{"db", strings.Repeat("d", 64), strings.Repeat("d", 63) + "ß" + strings.Repeat("b", 30)})
+		c.Count("connections_with_long_user_or_database_names", 1)
+	}
+	user, db := st.who()
+	cl.C.Send(pg.Startup([][2]string{{"options", ""}, {"user", user}, {"application_name", ""}, {"database", db}}))
 	cl.C.Quiesce()
 	if cfg.Auth {
 		cl.C.Send(pg.Password("x"))
